@@ -30,6 +30,9 @@ Table 4 `fileDecisionAppends`: a comment appended to a list that is also tested 
   every `_create_splicer(name, X)` call, which appends marker comments to X under show_splicer_comments) whose
   target list is truth-tested anywhere in the same file: 0 dominated (the statement list that holds the outermost
   guard also appends to the same list unconditionally, so the list is non-empty either way), 7 allow-listed, 9 OTHER.
+Table 5 `writeVersionReads`: every read of `config.write_version` (the version text set from --write-version /
+  --nowrite-version): 0 inside util.write_output_file (second header line, a comment: theorem
+  Shroud.Lines.wof_header_then_body of Props/C13.lean) or main.dump_jsonfile (JSON log), 9 anywhere else.
 The Lean theorem says that no row of any table has class 9.
 
 Assumption recorded by the check (not provable from the AST): dynamic text spliced into a comment template
@@ -153,6 +156,7 @@ class FileScan:
         self.uses = []      # (opt, line, kind, text)
         self.clist = []     # (line, cls, text)
         self.fdec = []      # (line, cls, text)   appends to lists that decide whether a file is written
+        self.wv = []        # (line, cls, text)   reads of config.write_version
         self.decision = set()
         self.aliases = {}   # (func node, name) -> opt
 
@@ -530,6 +534,18 @@ class FileScan:
                         and len(n.value.args) == 1 and self.is_comment_list(n.value.args[0])
                         and not self.inside_guard(n, f)):
                     self.check_decision(n, f, guarded=False)
+        # reads of config.write_version
+        for n in ast.walk(self.tree):
+            if isinstance(n, ast.Attribute) and n.attr == "write_version" and isinstance(n.ctx, ast.Load):
+                v = n.value
+                base = v.attr if isinstance(v, ast.Attribute) else v.id if isinstance(v, ast.Name) else None
+                if base != "config":
+                    continue      # args.write_version is the command line flag, read once in main_with_args (a guard, table 1)
+                f = enclosing_func(n)
+                fn = f.name if isinstance(f, ast.FunctionDef) else "<module>"
+                ok = (self.fname, fn) in (("util.py", "write_output_file"), ("main.py", "dump_jsonfile"))
+                self.wv.append((n.lineno, "comment-append" if ok else "OTHER",
+                                "%s: %s" % (fn, ast.unparse(enclosing_stmt(n)).split("\n")[0][:90])))
         # comment lists
         for f in funcs:
             for n in ast.walk(f):
@@ -599,6 +615,13 @@ def render(scans):
         for (line, cls, text) in s.fdec:
             rows.append("  (%d, %d, %d)" % (fi, line, CLS[cls]) + ",   -- %s: %s" % (s.fname, text))
     out += _strip_last_comma(rows)
+    out += ["]", "", "/-- (file, line, class) of every read of config.write_version -/",
+            "def writeVersionReads : List (Nat × Nat × Nat) := ["]
+    rows = []
+    for fi, s in enumerate(scans):
+        for (line, cls, text) in s.wv:
+            rows.append("  (%d, %d, %d)" % (fi, line, CLS[cls]) + ",   -- %s: %s" % (s.fname, text))
+    out += _strip_last_comma(rows)
     out += ["]", "", "end Shroud.Gen.Guards", ""]
     return "\n".join(out)
 
@@ -627,7 +650,9 @@ def regenerate(repo=None):
         other=[("%s:%d" % (s.fname, r[1]), r[0], r[3]) for s in scans for r in s.rows if r[2] == "OTHER"]
               + [("%s:%d" % (s.fname, r[1]), r[0], "use: " + r[3]) for s in scans for r in s.uses if r[2] == "OTHER"]
               + [("%s:%d" % (s.fname, r[0]), "comment-list", r[2]) for s in scans for r in s.clist if r[1] == "OTHER"]
-              + [("%s:%d" % (s.fname, r[0]), "file-decision-list", r[2]) for s in scans for r in s.fdec if r[1] == "OTHER"],
+              + [("%s:%d" % (s.fname, r[0]), "file-decision-list", r[2]) for s in scans for r in s.fdec if r[1] == "OTHER"]
+              + [("%s:%d" % (s.fname, r[0]), "write_version-read", r[2]) for s in scans for r in s.wv if r[1] == "OTHER"],
+        write_version_reads=sum(len(s.wv) for s in scans),
         file_decision_appends={k: sum(1 for s in scans for r in s.fdec if r[1] == k) for k in ("comment-append", "allow", "OTHER")},
         allow=sum(1 for s in scans for r in s.rows if r[2] == "allow") + sum(1 for s in scans for r in s.uses if r[2] == "allow"),
         by_class={k: sum(1 for s in scans for r in s.rows if r[2] == k) for k in CLS},
